@@ -1,14 +1,20 @@
 #!/usr/bin/env bash
-# Re-run every seeded change against the check(s) recorded for it: ./seed_regress.sh [name-prefix]
-# Prints one line per seed: CAUGHT / MISSED (+ which check). Takes about an hour for all of them.
-cd /verif
-for d in seeded/${1:-}*/; do
+# Re-run every seeded change against the check recorded for it, on a scratch copy of /verif and a scratch
+# worktree of /repo (so that /repo and /verif stay usable meanwhile):  ./seed_regress.sh [name-prefix]
+# One line per seed: CAUGHT / MISSED. The scratch copies are removed at the end.
+set -u
+WT=/tmp/regress-repo; VR=/tmp/regress-verif
+git -C /repo worktree remove --force $WT 2>/dev/null; rm -rf $WT $VR
+git -C /repo worktree add --detach $WT HEAD >/dev/null 2>&1 || { echo "cannot create worktree"; exit 2; }
+mkdir -p $VR && rsync -a --exclude .git --exclude replays --exclude '.cache/seed_regress.log' /verif/ $VR/
+trap 'git -C /repo worktree remove --force $WT >/dev/null 2>&1; git -C /repo worktree prune; rm -rf $VR' EXIT
+for d in /verif/seeded/${1:-}*/; do
   name=$(basename $d)
   prop=$(python3 -c "import json;print(json.load(open('$d/meta.json'))['property'])")
   checks=$prop
   case $name in C05d-*) checks="C17";; esac
-  out=$(./seedtest.sh /verif/$d/patch.diff $checks 2>&1)
-  if echo "$out" | grep -q "PATCH-DOES-NOT-APPLY"; then echo "$name: PATCH-DOES-NOT-APPLY"; continue; fi
-  suite=$(echo "$out" | grep -c "SUITE: passes")
-  if echo "$out" | grep -q "^CHECK .* exit=1"; then echo "$name: CAUGHT by $checks (suite passes=$suite) $(echo "$out" | grep -m1 'clause=')"; else echo "$name: MISSED by $checks (suite passes=$suite)"; fi
+  if ! git -C $WT apply $d/patch.diff 2>/dev/null; then echo "$name: PATCH-DOES-NOT-APPLY"; continue; fi
+  out=$(cd $VR && VERIF_REPO=$WT ./run check $checks quick 2>&1); rc=$?
+  git -C $WT checkout -- . ; git -C $WT clean -fdq
+  if [ $rc -eq 1 ] && echo "$out" | grep -q '^VIOLATION'; then echo "$name: CAUGHT by $checks $(echo "$out" | grep -m1 'clause=')"; else echo "$name: MISSED by $checks (exit=$rc) $(echo "$out" | tail -1)"; fi
 done
